@@ -933,6 +933,13 @@ async fn wrap_stream_with_websockets<S>(stream : Pin<Box<impl Future<Output=Gnei
     Ok(byte_stream)
 }
 
+/// Verification facade hook: the websocket byte-stream adapter the client reads from and writes to, over an arbitrary
+/// in-memory stream (no handshake).
+#[cfg(all(feature = "verif", feature = "tokio-websockets"))]
+pub(crate) async fn verif_wrap_tokio_websocket<S>(stream: S) -> TokioWsStream<S> where S : AsyncRead + AsyncWrite + Unpin {
+    WsByteStream::new(WebSocketStream::from_raw_socket(stream, tungstenite::protocol::Role::Client, None).await)
+}
+
 async fn apply_proxy_connect_to_stream<S>(stream : Pin<Box<impl Future<Output=GneissResult<S>>+Sized>>, http_connect_endpoint: Endpoint) -> GneissResult<S> where S : AsyncRead + AsyncWrite + Unpin {
     let mut inner_stream = stream.await?;
 
